@@ -1,15 +1,16 @@
 SPECIFICATION Spec
 CONSTANTS
   F = 3
-  NVals = 1
   BUGGY_F2 = FALSE
   BUGGY_F3 = FALSE
   BUGGY_F15 = FALSE
   BUGGY_F16 = FALSE
   BUGGY_F18 = FALSE
   BUGGY_F19 = FALSE
-  KeySet <- Keys5
-  ArgKeys <- Args5
-INVARIANTS IscanREq
+  KeySet <- K6s
+  MaxW = 2
+  CurArgs <- ArgsS
+INVARIANTS CursorOK
+PROPERTY EaAct
 VIEW View
 CHECK_DEADLOCK FALSE
